@@ -43,16 +43,19 @@ theorem initialize_config_total (hh : Honest dev) (p : Profile) (s : St σ) :
 /-! ## 2. ok_is_genuine -/
 
 /-- **ok_is_genuine (read)**: if `read(a, n)` returns `Ok(d)` then the handle was open, `d` has
-exactly `n` bytes, and — chunk by chunk, in the chunking `min(maxAck−12, 65535)` of the
-request (`GenuineRead`) — every chunk of `d` has the requested length and is the typed
-ReadMem view of a packet that was really received (it is in the log, and fits the receive
-buffer), parses as an acknowledge, has status Success, kind ReadMem, and the request id of
-the chunk's command (`id0 + k mod 2^16` for the k-th chunk). -/
+exactly `n` bytes, and the events `evs` this very call logged decompose — chunk by chunk, in
+the chunking `min(maxAck−12, 65535)` of the request (`GenuineRead`) — into one transaction
+per chunk (`GenuineSeg`): the chunk's ReadMem command carrying request id `id0 + k`, sent
+successfully, then receives only (no other command in between), and the LAST of these
+receives delivered a packet that fits the receive buffer, parses as an acknowledge, has status
+Success, kind ReadMem and the command's request id, and whose ReadMem view — of exactly the
+requested length — is that chunk of `d`.  An acknowledge received before the command was sent
+(a stale one) can therefore never be the source of the data. -/
 theorem ok_is_genuine_read (hh : Honest dev) (p : Profile) (s : St σ) (a n : Nat) (d : Bytes)
     (hn : n < 2 ^ 64) (hok : (Control.read dev p s a n).2 = .ok d) :
     d.length = n ∧ s.h.opened = true ∧ 12 < s.h.cfg.maxAck ∧
-    GenuineRead p (Control.read dev p s a n).1.logRev (min (s.h.cfg.maxAck - 12) 65535) (n + 1) n
-      s.h.nextReqId d :=
+    ∃ evs, (Control.read dev p s a n).1.logRev = evs ++ s.logRev ∧
+      GenuineRead p (min (s.h.cfg.maxAck - 12) 65535) a (n + 1) 0 n s.h.nextReqId d evs :=
   (read_inv hh p s a n hn).2 d hok
 
 /-- what the typed ReadMem view of a genuine acknowledge is: the first `scd_len` bytes of the
@@ -74,37 +77,65 @@ theorem genuine_read_payload (p : Profile) (id : Nat) (v bytes : Bytes)
     rw [← h5, List.length_take]; omega
 
 /-- **ok_is_genuine (write)**: if `write(a, data)` returns `Ok` then the handle was open and
-every chunk command of the write (`writeChunkList`, whose data concatenates to `data`) was
-confirmed by a really received acknowledge that parses, has status Success, kind WriteMem,
-the chunk command's request id, and reports exactly the chunk's length as written. -/
+the events this very call logged decompose, chunk command by chunk command
+(`writeChunkList`, whose data concatenates to `data`), into one transaction each: the chunk's
+WriteMem command with request id `id0 + k`, then receives only, the last of which delivered a
+genuine WriteMem acknowledge (parses, Success, kind WriteMem, the command's id) reporting
+exactly the chunk's length as written. -/
 theorem ok_is_genuine_write (hh : Honest dev) (p : Profile) (s : St σ) (a : Nat) (data : Bytes)
     (hd : data.length < 2 ^ 64) (hu32 : s.h.cfg.maxCmd < 2 ^ 32) (hid : s.h.nextReqId < 2 ^ 16)
     (hok : (Control.write dev p s a data).2 = .ok ()) :
     s.h.opened = true ∧ (data ≠ [] → 20 < s.h.cfg.maxCmd) ∧
-    GenuineWrite p (Control.write dev p s a data).1.logRev
-      (C06.writeChunkList p a s.h.cfg.maxCmd (data.length + 1) 0 data) s.h.nextReqId :=
+    ∃ evs, (Control.write dev p s a data).1.logRev = evs ++ s.logRev ∧
+      GenuineWrite p (C06.writeChunkList p a s.h.cfg.maxCmd (data.length + 1) 0 data)
+        s.h.nextReqId evs :=
   (write_inv hh p s a data hd hu32 hid).2 hok
 
-/-! ## 3. pending_bounded -/
+/-- **a fresh request id for every command**: whatever the device does and whatever the
+outcome (success, error status, time-out, exhausted retries), a `send_cmd` that put its
+command on the wire leaves `next_req_id` advanced by one — an acknowledge of an abandoned
+command can never match the id of a later command (until the 16-bit id wraps). -/
+theorem fresh_id_per_command (hh : Honest dev) (p : Profile) (s : St σ) (c : Cmd.Cmd)
+    (hc : C09.Constructible p c) (hfit : c.cmdLen ≤ s.h.cfg.maxCmd) :
+    (sendCmd dev p readView s c).1.h.nextReqId = (s.h.nextReqId + 1) % 2 ^ 16 := by
+  have hlen := (C09.len_agree p c s.h.nextReqId hc).1
+  have hsink := (C09.sink_exact c s.h.nextReqId
+    (max s.h.bufLen (max c.cmdLen c.maximumAckLen))).2.2.1 (by rw [hlen]; omega)
+  rcases hsd : dev.send s.d (c.serialize s.h.nextReqId) with ⟨d, r⟩
+  simp only [sendCmd, if_neg (Nat.not_lt.mpr hfit), hsink, hlen, ne_eq, not_true_eq_false,
+    if_false, hsd]
+  cases r with
+  | some e => rfl
+  | none =>
+    simp only [St.push]
+    rw [(recvLoop_inv hh p readView readView_total (ackKindOf c) s.h.nextReqId _ _).h_eq]
 
-/-- **pending_bounded (one transaction)**: one `send_cmd` performs exactly one bulk-out
+/-! ## 3. pending_bounded, configured time-outs and lengths -/
+
+/-- **pending_bounded (one transaction)**: one `send_cmd` performs at most one bulk-out
 transfer and at most `retry_count` bulk-in transfers, whatever the device answers (endless
-pending acknowledges included); with `retry_count = 0` it performs none and fails. -/
+pending acknowledges or endless acknowledges of other commands included); with
+`retry_count = 0` it performs none and fails. -/
 theorem pending_bounded_txn (hh : Honest dev) (p : Profile) (s : St σ) (c : Cmd.Cmd)
     (hc : C09.Constructible p c) :
     ∃ evs, (sendCmd dev p readView s c).1.logRev = evs ++ s.logRev ∧
-      recvCount evs ≤ s.h.cfg.retry ∧ sendCount evs = 1 := by
-  exact (sendCmd_inv hh p readView readView_total s c hc).1.log
+      sendCount evs ≤ 1 ∧ recvCount evs ≤ s.h.cfg.retry :=
+  (sendCmd_inv hh p readView readView_total s c hc).one_send
 
-/-- **pending_bounded (operations)**: during `read`, `write` and `open` the number of bulk-in
-transfers is at most `retry_count` times the number of commands sent — no unbounded loop. -/
+/-- **pending_bounded (operations)** and **configured time-outs / lengths**: during `read` and
+`write` the number of bulk-in transfers is at most `retry_count` times the number of commands
+sent — no unbounded loop —, every command put on the wire is at most the configured
+`maximum_cmd_length` long, and every bulk transfer is given exactly the configured
+`timeout_duration` (`EvsOk`); for `open` the receive bound holds as well. -/
 theorem pending_bounded (hh : Honest dev) (p : Profile) (s : St σ) (a n : Nat) (data : Bytes)
     (hn : n < 2 ^ 64) (hd : data.length < 2 ^ 64) (hu32 : s.h.cfg.maxCmd < 2 ^ 32)
     (hid : s.h.nextReqId < 2 ^ 16) :
     (∃ evs, (Control.read dev p s a n).1.logRev = evs ++ s.logRev ∧
-      recvCount evs ≤ s.h.cfg.retry * sendCount evs) ∧
+      recvCount evs ≤ s.h.cfg.retry * sendCount evs ∧
+      EvsOk s.h.cfg.maxCmd s.h.cfg.timeoutMs evs) ∧
     (∃ evs, (Control.write dev p s a data).1.logRev = evs ++ s.logRev ∧
-      recvCount evs ≤ s.h.cfg.retry * sendCount evs) ∧
+      recvCount evs ≤ s.h.cfg.retry * sendCount evs ∧
+      EvsOk s.h.cfg.maxCmd s.h.cfg.timeoutMs evs) ∧
     (∃ evs, (Control.open dev p s).1.logRev = evs ++ s.logRev ∧
       recvCount evs ≤ s.h.cfg.retry * sendCount evs) :=
   ⟨(read_inv hh p s a n hn).1.log, (write_inv hh p s a data hd hu32 hid).1.log,
@@ -130,39 +161,55 @@ theorem usable_after_any (hh : Honest dev) (p : Profile) (s : St σ) (a n : Nat)
   exact ⟨⟨h1.cfg, h1.opened, h1.id16 hid⟩, ⟨h2.cfg, h2.opened, h2.id16 hid⟩⟩
 
 /-- **usable_after_error**: take any handle that is open with limits `lim` negotiated; let an
-arbitrary (hostile) device answer a `read` and a `write` in any way, with any outcome.  If the
-device then behaves (any conforming transport `dev2` in any state `d2`, pending plan below
-the retry count), the next `read` returns exactly the device memory and the next `write`
-stores exactly the data (by C06). -/
+arbitrary (hostile) device answer a `read` and a `write` in any way, with any outcome, and call
+the handle afterwards `h'`.  If the device then behaves — any conforming transport `dev2` in
+any state `d2` whose bulk-in pipe (a FIFO: nothing the host did not fetch disappears) still
+holds `stale` leftovers of the hostile phase that are well-formed acknowledges of OTHER request
+ids fitting the buffer, with `|stale| + pendings < retry` — then the very next `read` returns
+exactly the device memory (the stale acknowledges are fetched and discarded, never returned as
+data), the very next `write` stores exactly the data, and afterwards the pipe is empty, so all
+C06 theorems apply again (`C06.Ready`). -/
 theorem usable_after_error {σ2 M : Type} [Spec.Conf.MemLike M] {dev2 : Dev σ2}
     {view2 : σ2 → Spec.Conf.View M} {lim : Spec.Conf.Limits} {plan : Nat → Nat} {ms : Nat}
     (hh : Honest dev) (hc : Spec.Conf.Conforming dev2 view2 lim plan ms) (p : Profile)
     (s : St σ) (a n : Nat) (data : Bytes) (hn : n < 2 ^ 64) (hd : data.length < 2 ^ 64)
-    (hr : C06.Ready s lim plan ms) (hu32 : lim.maxCmd < 2 ^ 32)
-    (d2 : σ2) (a' n' : Nat) (data' : Bytes) (hsp : a' + n' ≤ 2 ^ 64) (hn' : n' < 2 ^ 64)
-    (hsp' : a' + data'.length ≤ 2 ^ 64) (hd' : data'.length < 2 ^ 64)
+    (hop : s.h.opened = true) (hmc : s.h.cfg.maxCmd = lim.maxCmd)
+    (hma : s.h.cfg.maxAck = lim.maxAck) (hid : s.h.nextReqId < 2 ^ 16) (hms : ms < 2 ^ 16)
+    (hu32 : lim.maxCmd < 2 ^ 32)
+    (d2 : σ2) (stale : List Bytes) (hq : (view2 d2).queue = stale)
+    (hbudget : ∀ i, stale.length + plan i < s.h.cfg.retry)
+    (hstale : C06.StaleOk p (Control.write dev p (Control.read dev p s a n).1 a data).1.h.nextReqId
+      (Control.write dev p (Control.read dev p s a n).1 a data).1.h.bufLen stale)
+    (a' n' : Nat) (data' : Bytes) (hsp : a' + n' ≤ 2 ^ 64) (hn' : 0 < n' ∧ n' < 2 ^ 64)
+    (hsp' : a' + data'.length ≤ 2 ^ 64) (hd' : data' ≠ [] ∧ data'.length < 2 ^ 64)
     (hcmd : 24 ≤ lim.maxCmd) (hack : 16 ≤ lim.maxAck) :
-    (Control.read dev2 p ⟨(Control.write dev p (Control.read dev p s a n).1 a data).1.h, d2, []⟩
-        a' n').2 = .ok (Spec.Conf.readRange (view2 d2).mem a' n') ∧
-    (Control.write dev2 p ⟨(Control.write dev p (Control.read dev p s a n).1 a data).1.h, d2, []⟩
-        a' data').2 = .ok () ∧
-    (view2 (Control.write dev2 p
-        ⟨(Control.write dev p (Control.read dev p s a n).1 a data).1.h, d2, []⟩ a' data').1.d).mem =
-      Spec.Conf.writeRange (view2 d2).mem a' data' := by
+    let h' := (Control.write dev p (Control.read dev p s a n).1 a data).1.h
+    (Control.read dev2 p ⟨h', d2, []⟩ a' n').2 = .ok (Spec.Conf.readRange (view2 d2).mem a' n') ∧
+    C06.Ready view2 (Control.read dev2 p ⟨h', d2, []⟩ a' n').1 lim plan ms ∧
+    (Control.write dev2 p ⟨h', d2, []⟩ a' data').2 = .ok () ∧
+    (view2 (Control.write dev2 p ⟨h', d2, []⟩ a' data').1.d).mem =
+      Spec.Conf.writeRange (view2 d2).mem a' data' ∧
+    (view2 (Control.write dev2 p ⟨h', d2, []⟩ a' data').1.d).queue = [] := by
+  intro h'
   obtain ⟨h1, _⟩ := read_inv hh p s a n hn
   have hu1 : (Control.read dev p s a n).1.h.cfg.maxCmd < 2 ^ 32 := by
-    rw [h1.cfg, hr.maxCmd]; exact hu32
-  obtain ⟨h2, _⟩ := write_inv hh p (Control.read dev p s a n).1 a data hd hu1 (h1.id16 hr.id16)
-  have hready : C06.Ready (σ := σ2)
-      ⟨(Control.write dev p (Control.read dev p s a n).1 a data).1.h, d2, []⟩ lim plan ms :=
-    ⟨by simp only; rw [h2.opened, h1.opened]; exact hr.opened,
-     by simp only; rw [h2.cfg, h1.cfg]; exact hr.maxCmd,
-     by simp only; rw [h2.cfg, h1.cfg]; exact hr.maxAck,
-     h2.id16 (h1.id16 hr.id16), hr.ms16,
-     by simp only; rw [h2.cfg, h1.cfg]; exact hr.plan_lt_retry⟩
-  obtain ⟨s3, hs3, _⟩ := C06.read_exact hc p _ a' n' hready hsp hn' hcmd (by omega)
-  obtain ⟨s4, hs4, hm4, _⟩ := C06.write_exact hc p _ a' data' hready hsp' hd' (by omega) hu32 hack
-  refine ⟨by rw [hs3], by rw [hs4], by rw [hs4]; exact hm4⟩
+    rw [h1.cfg, hmc]; exact hu32
+  obtain ⟨h2, _⟩ := write_inv hh p (Control.read dev p s a n).1 a data hd hu1 (h1.id16 hid)
+  have hcfg : h'.cfg = s.h.cfg := h2.cfg.trans h1.cfg
+  have hrec : Recoverable p view2 (⟨h', d2, []⟩ : St σ2) lim plan ms stale :=
+    ⟨by simp only; rw [show h'.opened = s.h.opened from h2.opened.trans h1.opened]; exact hop,
+     by simp only; rw [hcfg]; exact hmc, by simp only; rw [hcfg]; exact hma,
+     h2.id16 (h1.id16 hid), hms, by simp only; rw [hcfg]; exact hbudget, hq, hstale⟩
+  obtain ⟨s3, hs3, hm3, hq3, hcfg3, hop3, hid3⟩ :=
+    read_conforming_stale hc p _ stale a' n' hrec hsp hn'.2 hcmd (by omega)
+  obtain ⟨s4, hs4, hm4, hq4, _⟩ :=
+    write_conforming_stale hc p _ stale a' data' hrec hsp' hd'.2 (by omega) hu32 hack
+  rw [if_neg (by omega)] at hq3
+  rw [if_neg hd'.1] at hq4
+  refine ⟨by rw [hs3], ?_, by rw [hs4], by rw [hs4]; exact hm4, by rw [hs4]; exact hq4⟩
+  rw [hs3]
+  exact ⟨hq3, hop3, by rw [hcfg3]; exact hrec.maxCmd, by rw [hcfg3]; exact hrec.maxAck, hid3, hms,
+    fun i => by rw [hcfg3]; have := hrec.budget i; omega⟩
 
 /-- **open after a failed open**: when `open` fails, the channel is closed again (`opened =
 false`, so the next `open` renegotiates instead of silently keeping the default limits) —
@@ -173,7 +220,7 @@ theorem open_failure_closes (hh : Honest dev) (p : Profile) (s : St σ)
     ((Control.open dev p s).2 = .ok () → (Control.open dev p s).1.h.opened = true) ∧
     (∀ e, (Control.open dev p s).2 = .err e →
       (Control.open dev p s).1.h.opened = false ∨
-      ∃ ue, Ev.ctl .release (some ue) ∈ (Control.open dev p s).1.logRev) := by
+      ∃ t ue, Ev.ctl .release t (some ue) ∈ (Control.open dev p s).1.logRev) := by
   obtain ⟨_, _, _, _, h5, h6⟩ := open_inv hh p s
   exact ⟨h5, fun e he => h6 e he hclosed⟩
 
@@ -212,5 +259,22 @@ example : (Control.read pendingDev .dev hostState 0x1000 10).2 = .err .io ∧
 
 example : (Control.open garbageDev .release ⟨Handle.new, (), []⟩).2 = .err .io ∧
     (Control.open garbageDev .release ⟨Handle.new, (), []⟩).1.h.opened = false := by decide +kernel
+
+/-- the auditor's scenario on the FIFO reference device: retry count 3, the device sends 3
+pending acknowledges before its answer to the first command.  The first read fails (retries
+exhausted) and leaves its answer queued; the next read — of another address — fetches and
+discards that stale acknowledge and returns the memory at ITS address. -/
+def slowDev : Dev (Spec.Conf.RefState (Nat → UInt8)) :=
+  Spec.Conf.refDev ⟨64, 64⟩ (fun i => if i = 0 then 3 else 0) 0
+
+def slowState : St (Spec.Conf.RefState (Nat → UInt8)) :=
+  ⟨⟨7, ⟨1, 3, 64, 64⟩, 0, true, none⟩, ⟨fun a => UInt8.ofNat a, [], 0⟩, []⟩
+
+example : (Control.read slowDev .dev slowState 0x1000 4).2 = .err .io ∧
+    (Control.read slowDev .dev slowState 0x1000 4).1.d.queue.length = 1 ∧
+    (Control.read slowDev .dev (Control.read slowDev .dev slowState 0x1000 4).1 0x2010 4).2 =
+      .ok [0x10, 0x11, 0x12, 0x13] ∧
+    (Control.read slowDev .dev (Control.read slowDev .dev slowState 0x1000 4).1 0x2010 4).1.d.queue
+      = [] := by decide +kernel
 
 end CamVerif.C07
